@@ -355,7 +355,7 @@ Definition fdec_decode_from_to (d : fdec) (source : list Z) (target_len : Z) : r
            if checksum_flag s && fr_finished s && negb (is_some (fr_checksum s)) then
              if 4 <=? zlen src then
                ROk (fdec_with_state d0 (finish s 4 (Some (le_val (take_z 4 src)))), Some (4, 0))
-             else ROk (d0, Some (4, 0))
+             else ROk (d0, Some (0, 0))
            else
              let* (s', _) := dft_loop (S (S (length src))) s src in
              ROk (fdec_with_state d0 s', None)
